@@ -361,6 +361,202 @@ fn runs<T: Chunky<Item = f64>>(max_run: usize) -> Box<dyn Check> {
     Box::new(RunMerge::<T> { max_run, judge: uni_judge::<T>() })
 }
 
+// ---------------------------------------------------------------------------------------
+// merges of LONG constant runs of far-apart values (|x| up to 1e150, runs up to 10^5): the
+// cross term of a merge, delta^2·n_a·n_b/n, is formed from factors whose partial products are
+// far larger than the term itself
+// ---------------------------------------------------------------------------------------
+
+pub struct LargeRunMerge<T: Chunky> {
+    pub lens: Vec<usize>,
+    pub lift: fn(f64) -> T::Item,
+    /// the second coordinate / weight the lift attaches, for the report only
+    pub lift_note: &'static str,
+}
+const LARGE_VALUES: [f64; 3] = [-1e150, 1e150, 1.0];
+impl<T: Chunky> LargeRunMerge<T> {
+    fn part(&self, x: f64, n: usize) -> T {
+        T::collect(&vec![(self.lift)(x); n])
+    }
+    fn eval(&self, runs: &[(f64, usize)], nest_left: bool, cache: Option<&std::collections::HashMap<(u64, usize), T>>) -> Result<T, String> {
+        let parts: Vec<T> = runs
+            .iter()
+            .map(|(x, n)| match cache.and_then(|c| c.get(&(x.to_bits(), *n))) {
+                Some(t) => t.clone(),
+                None => self.part(*x, *n),
+            })
+            .collect();
+        guarded(move || {
+            if nest_left {
+                let mut it = parts.into_iter();
+                let mut acc = it.next().unwrap();
+                for p in it {
+                    acc.merge_(&p);
+                }
+                acc
+            } else {
+                let mut acc = parts.last().unwrap().clone();
+                for p in parts[..parts.len() - 1].iter().rev() {
+                    let mut q = p.clone();
+                    q.merge_(&acc);
+                    acc = q;
+                }
+                acc
+            }
+        })
+    }
+    fn cases(&self) -> Vec<(Vec<(f64, usize)>, bool)> {
+        // two-run merges first (the shortest counterexample is reported)
+        let mut v = Vec::new();
+        for three in [false, true] {
+            for &a in &LARGE_VALUES {
+                for &b in &LARGE_VALUES {
+                    if a == b {
+                        continue;
+                    }
+                    for &na in &self.lens {
+                        for &nb in &self.lens {
+                            if !three {
+                                v.push((vec![(a, na), (b, nb)], true));
+                                continue;
+                            }
+                            for &c in &LARGE_VALUES {
+                                if c == b {
+                                    continue;
+                                }
+                                for &nc in &self.lens {
+                                    for nest in [true, false] {
+                                        v.push((vec![(a, na), (b, nb), (c, nc)], nest));
+                                    }
+                                }
+                            }
+                        }
+                    }
+                }
+            }
+        }
+        v
+    }
+    fn judge(&self, runs: &[(f64, usize)], obs: &Obs) -> Vec<Violation> {
+        let mut out = Vec::new();
+        let n: usize = runs.iter().map(|r| r.1).sum();
+        let lo = runs.iter().map(|r| r.0).fold(f64::INFINITY, f64::min);
+        let hi = runs.iter().map(|r| r.0).fold(f64::NEG_INFINITY, f64::max);
+        let m = lo.abs().max(hi.abs());
+        // every variance-type quantity is at most sum (x - mean)^2 <= n·(hi - lo)^2; where that
+        // bound is far below f64::MAX the quantity is a real number, so not +inf either.
+        // (the lifted second coordinate / weight never exceeds |x| / 1)
+        let bound = n as f64 * (hi - lo) * (hi - lo);
+        let ctx = || format!("the merge of constant runs {runs:?} (value, length){}", self.lift_note);
+        for (s, v) in &obs.vals {
+            let weighted_only = matches!(s, Stat::VarOfWMean | Stat::WError);
+            if is_variance(*s) || (T::NAME.starts_with("WeightedMean") && matches!(s, Stat::PopVar | Stat::SampleVar)) {
+                sign_check(T::NAME, *s, v, n, &ctx, &mut out);
+                let _ = weighted_only;
+                if let Val::F(g) = v {
+                    if g.is_infinite() && bound < 1e306 && n >= min_n(*s) {
+                        out.push(Violation {
+                            sig: format!("{}.{}:infinite", T::NAME, s.name()),
+                            detail: format!("{}::{} = {g:?} for {}, but it is at most n·(max - min)^2 = {bound:e}", T::NAME, s.name(), ctx()),
+                        });
+                    }
+                }
+            }
+            if matches!(s, Stat::Mean | Stat::MeanX | Stat::UnweightedMean | Stat::WMean) {
+                let t = 8.0 * n as f64 * UNIT * m;
+                match v {
+                    Val::F(g) if *g >= lo - t && *g <= hi + t => {}
+                    _ => out.push(Violation {
+                        sig: format!("{}.{}:outside-data-range", T::NAME, s.name()),
+                        detail: format!("{}::{} = {} is outside [{lo:?}, {hi:?}] ± {t:e} for {}", T::NAME, s.name(), v.show(), ctx()),
+                    }),
+                }
+            }
+        }
+        out
+    }
+}
+impl<T: Chunky> Check for LargeRunMerge<T> {
+    fn name(&self) -> String {
+        format!("C17/long-run-merges/{}/runs<={}", T::NAME, self.lens.iter().max().unwrap())
+    }
+    fn run(&self) -> Stats {
+        use rayon::prelude::*;
+        let t0 = std::time::Instant::now();
+        let cases = self.cases();
+        let maxlen = *self.lens.iter().max().unwrap();
+        let mut st = Stats { spec: self.name(), depth_requested: maxlen, depth_completed: maxlen, ..Default::default() };
+        let keys: Vec<(f64, usize)> = LARGE_VALUES.iter().flat_map(|x| self.lens.iter().map(move |n| (*x, *n))).collect();
+        let built: Vec<((u64, usize), Result<T, String>)> = keys.par_iter().map(|(x, n)| ((x.to_bits(), *n), guarded(|| self.part(*x, *n)))).collect();
+        let mut cache = std::collections::HashMap::new();
+        let mut found: std::collections::BTreeMap<String, Found> = Default::default();
+        for (k, r) in built {
+            st.transitions += k.1 as u64;
+            match r {
+                Ok(t) => {
+                    cache.insert(k, t);
+                }
+                Err(m) => {
+                    let sig = format!("{}.collect:panic:long-runs", T::NAME);
+                    found.entry(sig.clone()).or_insert(Found { sig, detail: m, path: vec![json!({"runs": [[fshow(f64::from_bits(k.0)), k.1]]}), json!({"left_nested": true})], count: 1 });
+                }
+            }
+        }
+        let res: Vec<Vec<Violation>> = cases
+            .par_iter()
+            .map(|(runs, nest)| {
+                if runs.iter().any(|(x, n)| !cache.contains_key(&(x.to_bits(), *n))) {
+                    return vec![];
+                }
+                match self.eval(runs, *nest, Some(&cache)) {
+                    Err(m) => vec![Violation { sig: format!("{}.merge:panic", T::NAME), detail: m }],
+                    Ok(e) => self.judge(runs, &e.observe_()),
+                }
+            })
+            .collect();
+        let mut outcomes = std::collections::HashSet::new();
+        for ((runs, nest), vs) in cases.iter().zip(res) {
+            st.states += 1;
+            st.transitions += runs.len() as u64 - 1;
+            outcomes.insert(vs.len());
+            for v in vs {
+                let sig = format!("{}:long-runs", v.sig);
+                let path = vec![json!({"runs": runs.iter().map(|(x, n)| json!([fshow(*x), n])).collect::<Vec<_>>()}), json!({"left_nested": nest})];
+                let e = found.entry(sig.clone()).or_insert(Found { sig, detail: format!("{} [left-nested {}]", v.detail.chars().take(400).collect::<String>(), nest), path, count: 0 });
+                e.count += 1;
+            }
+        }
+        st.maximal = st.states;
+        st.nontrivial_states = st.states;
+        st.outcomes = st.states;
+        let (r, n) = &cases[cases.len() / 2];
+        st.samples.push(json!({"spec": self.name(), "history": [{"runs": format!("{r:?}")}, {"left_nested": n}]}));
+        st.found = found.into_values().collect();
+        st.wall_s = t0.elapsed().as_secs_f64();
+        st
+    }
+    fn replay(&self, path: &[Value]) -> Result<Vec<Violation>, String> {
+        let runs: Vec<(f64, usize)> = path
+            .first()
+            .and_then(|v| v.get("runs"))
+            .and_then(|r| r.as_array())
+            .ok_or("no runs")?
+            .iter()
+            .map(|p| Some((fparse(p.get(0)?)?, p.get(1)?.as_u64()? as usize)))
+            .collect::<Option<Vec<_>>>()
+            .ok_or("bad runs")?;
+        let nest = path.get(1).and_then(|v| v.get("left_nested")).and_then(|b| b.as_bool()).unwrap_or(true);
+        match self.eval(&runs, nest, None) {
+            Err(m) => Ok(vec![Violation { sig: format!("{}.merge:panic", T::NAME), detail: m }]),
+            Ok(e) => Ok(self.judge(&runs, &e.observe_())),
+        }
+    }
+}
+fn long_runs<T: Chunky>(q: bool, lift: fn(f64) -> T::Item, lift_note: &'static str) -> Box<dyn Check> {
+    let lens = if q { vec![1, 3, 100, 10_000, 100_000] } else { vec![1, 2, 3, 17, 100, 1000, 10_000, 31_623, 65_536, 100_000] };
+    Box::new(LargeRunMerge::<T> { lens, lift, lift_note })
+}
+
 pub fn plan(tier: Tier) -> Plan {
     let q = tier == Tier::Quick;
     let mut checks: Vec<Box<dyn Check>> = Vec::new();
@@ -387,13 +583,25 @@ pub fn plan(tier: Tier) -> Plan {
     checks.push(runs::<U<Kurtosis>>(mr));
     checks.push(runs::<U<Moments4>>(mr));
     checks.push(runs::<U<M6>>(mr));
+    fn id(x: f64) -> f64 {
+        x
+    }
+    checks.push(long_runs::<U<Mean>>(q, id, ""));
+    checks.push(long_runs::<U<Variance>>(q, id, ""));
+    checks.push(long_runs::<U<Skewness>>(q, id, ""));
+    checks.push(long_runs::<U<Kurtosis>>(q, id, ""));
+    checks.push(long_runs::<U<Moments4>>(q, id, ""));
+    checks.push(long_runs::<U<M6>>(q, id, ""));
+    checks.push(long_runs::<Covariance>(q, |x| (x, -0.5 * x), " as x, with y = -x/2"));
+    checks.push(long_runs::<WeightedMeanWithError>(q, |x| (x, 1.0), " with weight 1"));
+    checks.push(long_runs::<WeightedMean>(q, |x| (x, 0.5), " with weight 0.5"));
     let mt = if q { 6 } else { 9 };
     checks.push(Box::new(HistVar::<H1> { max_total: mt, _h: Default::default() }));
     checks.push(Box::new(HistVar::<H2> { max_total: mt, _h: Default::default() }));
     checks.push(Box::new(HistVar::<H3> { max_total: mt, _h: Default::default() }));
     checks.push(Box::new(HistVar::<H4> { max_total: mt, _h: Default::default() }));
     Plan {
-        rule: "merges of constant runs of ADJACENT floating-point values (nine base values incl. 0.1, 0.3, 1e15+3, 1.1e150, a subnormal; neighbour distance 1..3 ulps; every pair of run lengths up to 8 / 16, both orders, and three-run nestings in both bracketings); AND no restriction on kappa: alphabets ill (offset 1e15 x spread), ulp (spread of one ulp), den (subnormals), huge (|x| = 1e150), off11, mixed; every add-sequence up to the depth bound AND every merge tree over every chunking (interval exploration) for Mean, Variance, Skewness, Kurtosis, Moments4, M6, Covariance, WeightedMean(WithError); on every reachable state every variance-type accessor is >= 0 and not NaN whenever defined, every mean lies within the data range ± 8·n·u·max|x|, effective_len lies in [1, len] up to n·2^-50; histograms LEN 1..4: every count vector of total <= 6 (9 thorough), variance(i) and variances() in [0, total/4] ± 4 ulp".into(),
+        rule: "merges of LONG constant runs of far-apart values (values -1e150, 1e150, 1; run lengths 1..10^5; every two-run merge and every three-run merge in both bracketings; additionally a variance-type accessor bounded by n·(max-min)^2 < 1e306 must be finite); merges of constant runs of ADJACENT floating-point values (nine base values incl. 0.1, 0.3, 1e15+3, 1.1e150, a subnormal; neighbour distance 1..3 ulps; every pair of run lengths up to 8 / 16, both orders, and three-run nestings in both bracketings); AND no restriction on kappa: alphabets ill (offset 1e15 x spread), ulp (spread of one ulp), den (subnormals), huge (|x| = 1e150), off11, mixed; every add-sequence up to the depth bound AND every merge tree over every chunking (interval exploration) for Mean, Variance, Skewness, Kurtosis, Moments4, M6, Covariance, WeightedMean(WithError); on every reachable state every variance-type accessor is >= 0 and not NaN whenever defined, every mean lies within the data range ± 8·n·u·max|x|, effective_len lies in [1, len] up to n·2^-50; histograms LEN 1..4: every count vector of total <= 6 (9 thorough), variance(i) and variances() in [0, total/4] ± 4 ulp".into(),
         assumptions: common_assumptions(),
         checks,
     }
